@@ -3,7 +3,8 @@
    numbers), month function and range [t0, t1]; T is the table built by _populate; `cnt P a b` is the
    day-by-day count of days d in [a, b) with P d; fuel bounds the (unbounded) Python loops. *)
 From Coq Require Import ZArith List Bool Lia Sorted.
-From PB Require Import model.M_cal model.M_bdays proofs.P_bdays.
+From PB Require Import model.M_cal model.M_bdays proofs.P_bdays proofs.P_bdays_gen.
+From PB Require gen.Gen_drange.
 Import ListNotations.
 Open Scope Z_scope.
 
@@ -39,6 +40,19 @@ Theorem C05_adjust_m hol wk month t0 t1 fuel t rf : adjust_f hol wk t1 fuel t = 
   adjust_m hol wk month t0 t1 fuel t = if month rf =? month t then Some rf else adjust_p hol wk t0 fuel t.
 Proof. exact (adjust_m_spec hol wk month t0 t1 fuel t rf). Qed.
 Print Assumptions C05_adjust_m.
+Theorem C05_adjust_m_full hol wk month t0 t1 fuel t b r :
+  t <= b <= t1 -> is_bday hol wk b = true -> adjust_m hol wk month t0 t1 fuel t = Some r ->
+  exists rf, (t <= rf <= b /\ is_bday hol wk rf = true /\ forall d, t <= d < rf -> is_bday hol wk d = false) /\
+             ((month rf = month t /\ r = rf) \/ (month rf <> month t /\ adjust_p hol wk t0 fuel t = Some r)).
+Proof. exact (adjust_m_full hol wk month t0 t1 fuel t b r). Qed.
+Print Assumptions C05_adjust_m_full.
+
+(* an adjustment that lands inside [t0, t1] is a business day, whatever the convention (so a result inside the
+   calendar that is not one -- or exists although no business day exists on that side -- is a defect) *)
+Theorem C05_adjust_in_range_is_bday hol wk month t0 t1 fuel a t s :
+  adjust hol wk month t0 t1 fuel a t = Some s -> t0 <= s <= t1 -> is_bday hol wk s = true.
+Proof. intros E R. apply bday_holiday_false. exact (adjust_in_range hol wk month t0 t1 fuel a t s E R). Qed.
+Print Assumptions C05_adjust_in_range_is_bday.
 
 (* core list lemma: dt2int x = number of business days in [t0, x); int2dt is its inverse; the table
    successor is the least larger business day *)
@@ -127,6 +141,20 @@ Theorem C05_registry_call_returns_registered (V : Type) (default : V) st k arg :
   snd (calendar_call default st k arg) = reg_get default (fst (calendar_call default st k arg)) k.
 Proof. exact (call_returns_registered V default st k arg). Qed.
 Print Assumptions C05_registry_call_returns_registered.
+
+(* the Gallina text regenerated from /repo's _drange.py on every run (coq/gen/Gen_drange.v) IS the model:
+   is_holiday, is_bday, both loops of adjust 'f' and 'p', the path selector and the |days| <= 1 path of add *)
+Theorem C05_generated_code_is_model hol wk t0 t1 fuel t n :
+  (Gen_drange.is_holiday hol wk t = is_holiday hol wk t) /\ (Gen_drange.is_bday hol wk t = is_bday hol wk t) /\
+  (Gen_drange.adjust_f hol wk t1 fuel t = adjust_f hol wk t1 fuel t) /\
+  (Gen_drange.adjust_p hol wk t0 fuel t = adjust_p hol wk t0 fuel t) /\
+  (Gen_drange.add_uses_table n = add_uses_table n) /\
+  (Gen_drange.add_path hol wk fuel t n = add_loop hol wk fuel n (t + n)).
+Proof.
+  exact (conj (gen_is_holiday hol wk t) (conj (gen_is_bday hol wk t) (conj (gen_adjust_f hol wk t1 fuel t)
+        (conj (gen_adjust_p hol wk t0 fuel t) (conj (gen_add_uses_table n) (gen_add_path hol wk fuel t n)))))).
+Qed.
+Print Assumptions C05_generated_code_is_model.
 
 (* the hypotheses are satisfiable on a non-trivial calendar: December 2020 .. January 2021, Sat-Sun weekend,
    holidays 25 Dec, 28 Dec (Mon), 31 Dec and 1 Jan: 2020-12-24 (Thu) + 2 business days = 2020-12-30, via
